@@ -368,6 +368,21 @@ def stability_condition(f: Field, bare: bool):
     return None, f"format type {t!r}"
 
 
+def margin_instance(f: Field):
+    """The instance of the rounding lemma (pyvc/rounding.py) that `stability_condition(f, bare=False)` relies on:
+    ("f", decimals, digits-before-the-point bound) or ("e", decimals); None when no margin inequality is involved."""
+    p = f.parsed()
+    if p is None or f.kind != "float" or p["prec"] is None:
+        return None
+    d = int(p["prec"])
+    if p["type"] in ("e", "E"):
+        return ("e", d) if d <= 14 else None
+    if p["type"] in ("f", "F"):
+        w = int(p["width"] or 0)
+        return ("f", d, max(w - d - 2, 0) if w else FREE_FIELD_DIGITS)
+    return None
+
+
 # ----------------------------------------------------------------------------------------------------------------
 # Where does a printed value come from?  Factors applied between the object's attribute and the printed text.
 PASS_METHODS = {"flatten", "ravel", "reshape", "transpose", "copy", "tolist", "items", "values", "get", "astype", "T", "squeeze", "nonzero"}
